@@ -12,6 +12,7 @@ import (
 	"context"
 	"errors"
 	"fmt"
+	"math/bits"
 	"os"
 	"sort"
 	"testing"
@@ -52,6 +53,17 @@ type Case struct {
 	Cfg      Config          `json:"cfg"`
 	Children []kit.ChildSpec `json:"children"`
 	Ops      []Op            `json:"ops"`
+	// Audit says where the per-step comparison with the model reads from:
+	//   "" / "direct": from the directory object under test (enumeration + Find after every edit,
+	//                  full comparison on the object right after a reload);
+	//   "copy":        the object under test is never read by the audit: after every edit its
+	//                  GetNode() is loaded as a SEPARATE directory (from the stored block) and
+	//                  that copy is compared (one enumeration API + Find of every stored name);
+	//   "sparse":      no per-step audit; only the find/links/foreach/enum/reload operations of
+	//                  the history observe, reloads audit a separate copy.
+	// Lookups and ForEachLink materialise lazily loaded HAMT children, so auditing the object
+	// itself changes which code paths later edits and GetNode() take.
+	Audit string `json:"audit,omitempty"`
 }
 
 const errMaxLinksText = "BasicDirectory: cannot add child: maxLinks reached"
@@ -111,7 +123,12 @@ func gen(t *rapid.T) Case {
 			Salt:   uint32(i),
 		})
 	}
+	c.Audit = rapid.SampledFrom([]string{"direct", "direct", "direct", "copy", "copy", "copy", "sparse", "sparse"}).Draw(t, "audit")
 	nops := rapid.SampledFrom([]int{3, 10, 20, 30, 40, 50, kit.Scale(50, 60)}).Draw(t, "nopsclass") - rapid.IntRange(0, 2).Draw(t, "nopsdelta")
+	lg := bits.TrailingZeros(uint(c.Cfg.Width))
+	if c.Cfg.Width == 0 {
+		lg = 8
+	}
 	present := map[string]bool{}
 	sortedPresent := func() []string {
 		var s []string
@@ -132,6 +149,46 @@ func gen(t *rapid.T) Case {
 			k = 0
 		}
 		have := sortedPresent()
+		// removal burst directly after a reload: take the stored names that share one slot of the
+		// root shard (i.e. live in one sub-shard) and remove all but one (sometimes all) of them
+		// back to back, with no lookup or listing in between; often followed by another reload.
+		if n := len(c.Ops); i >= fill && n > 0 && c.Ops[n-1].Kind == "reload" && len(have) > 1 && rapid.IntRange(0, 9).Draw(t, "burst") < 6 {
+			bySlot := map[uint64][]string{}
+			for _, nm := range have {
+				sl := kit.HamtHash(nm) >> (64 - uint(lg))
+				bySlot[sl] = append(bySlot[sl], nm)
+			}
+			var slots []uint64
+			for sl, g := range bySlot {
+				if len(g) > 1 {
+					slots = append(slots, sl)
+				}
+			}
+			if len(slots) > 0 {
+				sort.Slice(slots, func(a, b int) bool { return slots[a] < slots[b] })
+				g := bySlot[rapid.SampledFrom(slots).Draw(t, "bslot")]
+				g = rapid.Permutation(g).Draw(t, "border")
+				keep := 1
+				if rapid.IntRange(0, 5).Draw(t, "ball") == 0 {
+					keep = 0
+				}
+				g = g[:len(g)-keep]
+				if len(g) > 8 {
+					g = g[:8]
+				}
+				for _, nm := range g {
+					c.Ops = append(c.Ops, Op{Kind: "remove", Name: nm})
+					delete(present, nm)
+					i++
+				}
+				if rapid.Bool().Draw(t, "breload") {
+					c.Ops = append(c.Ops, Op{Kind: "reload"})
+					i++
+				}
+				i-- // the loop increment accounts for one of the emitted operations
+				continue
+			}
+		}
 		switch {
 		case k <= 8: // add
 			name := rapid.SampledFrom(pool).Draw(t, "name")
@@ -280,6 +337,14 @@ func run(c Case) kit.Result {
 	default:
 		return kit.Result{}
 	}
+	audit := c.Audit
+	switch audit {
+	case "":
+		audit = "direct"
+	case "direct", "copy", "sparse":
+	default:
+		return kit.Result{}
+	}
 	ctx := context.Background()
 	ds := mdtest.Mock()
 	type child struct {
@@ -351,10 +416,12 @@ func run(c Case) kit.Result {
 		collapses, reloads, reloadsHAMT, toHAMT, toBasic, refused, replaces, missRemoves int
 		anyEdit, reloadAfterEdit, reloadBetweenEdits                                     bool
 		loadedHAMT                                                                       bool // current HAMT object came from NewHAMTDirectoryFromNode
+		observed                                                                         bool // the current object was read (Find / enumeration) since it was created or loaded
+		unobservedCollapses, copyAudits                                                  int
 		maxEntries                                                                       int
 	)
-	verify := func(when, api string) *kit.Result {
-		got, err := enumerate(ctx, dir, api)
+	verifyOn := func(d uio.Directory, when, api string) *kit.Result {
+		got, err := enumerate(ctx, d, api)
 		if err != nil {
 			r := kit.Fail("%s: %s: %v", when, api, err)
 			return &r
@@ -365,8 +432,12 @@ func run(c Case) kit.Result {
 		}
 		return nil
 	}
-	findCheck := func(when, name string) *kit.Result {
-		nd, err := dir.Find(ctx, name)
+	verify := func(when, api string) *kit.Result {
+		observed = true
+		return verifyOn(dir, when, api)
+	}
+	findCheckOn := func(d uio.Directory, when, name string) *kit.Result {
+		nd, err := d.Find(ctx, name)
 		e, ok := model[name]
 		if ok {
 			if err != nil {
@@ -380,6 +451,80 @@ func run(c Case) kit.Result {
 		} else if !errors.Is(err, os.ErrNotExist) {
 			r := kit.Fail("%s: Find(%q) of a missing name returned err=%v (want os.ErrNotExist)", when, name, err)
 			return &r
+		}
+		return nil
+	}
+	findCheck := func(when, name string) *kit.Result {
+		observed = true
+		return findCheckOn(dir, when, name)
+	}
+	// load builds a new directory object of the case's kind from a root node and carries over
+	// the settings that are not persisted in the node (as mfs.Directory.setNodeData does).
+	load := func(when string, nd ipld.Node, from uio.Directory) (uio.Directory, *kit.Result) {
+		var nw uio.Directory
+		var err error
+		switch cfg.Kind {
+		case "basic":
+			pn, ok := nd.(*mdag.ProtoNode)
+			if !ok {
+				r := kit.Fail("%s: basic directory node is %T", when, nd)
+				return nil, &r
+			}
+			nw = uio.NewBasicDirectoryFromNode(ds, pn.Copy().(*mdag.ProtoNode))
+		case "hamt":
+			nw, err = uio.NewHAMTDirectoryFromNode(ds, nd)
+		default:
+			nw, err = uio.NewDirectoryFromNode(ds, nd)
+		}
+		if err != nil {
+			r := kit.Fail("%s: loading the directory from its own root node: %v", when, err)
+			return nil, &r
+		}
+		nw.SetMaxLinks(from.GetMaxLinks())
+		nw.SetMaxHAMTFanout(from.GetMaxHAMTFanout())
+		nw.SetHAMTShardingSize(from.GetHAMTShardingSize())
+		nw.SetSizeEstimationMode(from.GetSizeEstimationMode())
+		if isHAMT(nw) != isHAMT(from) {
+			r := kit.Fail("%s: directory was HAMT=%v, its reloaded node is HAMT=%v", when, isHAMT(from), isHAMT(nw))
+			return nil, &r
+		}
+		return nw, nil
+	}
+	// auditCopy compares a SEPARATE directory loaded from the stored block of dir's current
+	// root node with the model; the object under test is only asked for GetNode().
+	auditCopy := func(when string, apis []string, extra string) *kit.Result {
+		nd, err := dir.GetNode()
+		if err != nil {
+			r := kit.Fail("%s: GetNode: %v", when, err)
+			return &r
+		}
+		if err := ds.Add(ctx, nd); err != nil {
+			return &kit.Result{Err: fmt.Errorf("harness: cannot store root: %v", err)}
+		}
+		stored, err := ds.Get(ctx, nd.Cid())
+		if err != nil {
+			return &kit.Result{Err: fmt.Errorf("harness: cannot read root back: %v", err)}
+		}
+		cp, r := load(when+": separate copy loaded from GetNode()", stored, dir)
+		if r != nil {
+			return r
+		}
+		copyAudits++
+		when += ": separate copy loaded from GetNode()"
+		for _, api := range apis {
+			if r := verifyOn(cp, when, api); r != nil {
+				return r
+			}
+		}
+		for _, n := range names() {
+			if r := findCheckOn(cp, when, n); r != nil {
+				return r
+			}
+		}
+		if extra != "" {
+			if r := findCheckOn(cp, when, extra); r != nil {
+				return r
+			}
 		}
 		return nil
 	}
@@ -438,6 +583,9 @@ func run(c Case) kit.Result {
 				delete(model, op.Name)
 				if wasHAMT && kit.HamtShardCount(names(), width) < before {
 					collapses++
+					if loadedHAMT && !observed {
+						unobservedCollapses++
+					}
 				}
 			} else {
 				if !errors.Is(err, os.ErrNotExist) {
@@ -466,31 +614,12 @@ func run(c Case) kit.Result {
 			if err := ds.Add(ctx, nd); err != nil {
 				return kit.Result{Err: fmt.Errorf("harness: cannot store root: %v", err)}
 			}
-			var nw uio.Directory
-			switch cfg.Kind {
-			case "basic":
-				pn, ok := nd.(*mdag.ProtoNode)
-				if !ok {
-					return kit.Fail("%s: basic directory node is %T", when, nd)
-				}
-				nw = uio.NewBasicDirectoryFromNode(ds, pn.Copy().(*mdag.ProtoNode))
-			case "hamt":
-				nw, err = uio.NewHAMTDirectoryFromNode(ds, nd)
-			default:
-				nw, err = uio.NewDirectoryFromNode(ds, nd)
-			}
-			if err != nil {
-				return kit.Fail("%s: loading the directory from its own root node: %v", when, err)
-			}
-			// carry over the settings that are not persisted in the node (mfs.Directory.setNodeData)
-			nw.SetMaxLinks(dir.GetMaxLinks())
-			nw.SetMaxHAMTFanout(dir.GetMaxHAMTFanout())
-			nw.SetHAMTShardingSize(dir.GetHAMTShardingSize())
-			nw.SetSizeEstimationMode(dir.GetSizeEstimationMode())
-			if isHAMT(nw) != wasHAMT {
-				return kit.Fail("%s: directory was HAMT=%v, its reloaded node is HAMT=%v", when, wasHAMT, isHAMT(nw))
+			nw, r := load(when, nd, dir)
+			if r != nil {
+				return *r
 			}
 			dir = nw
+			observed = false
 			reloads++
 			loadedHAMT = wasHAMT
 			if wasHAMT {
@@ -498,6 +627,14 @@ func run(c Case) kit.Result {
 			}
 			if anyEdit {
 				reloadAfterEdit = true
+			}
+			if audit != "direct" {
+				// the new object stays untouched (its children stay unloaded links); a second
+				// copy of the same root is compared in full
+				if r := auditCopy(when, enumAPIs, ""); r != nil {
+					return *r
+				}
+				continue
 			}
 			// full comparison right after the reload: all APIs and every stored name
 			for _, api := range enumAPIs {
@@ -522,6 +659,7 @@ func run(c Case) kit.Result {
 		nowHAMT := isHAMT(dir)
 		if nowHAMT != wasHAMT {
 			loadedHAMT = false
+			observed = false
 			if nowHAMT {
 				toHAMT++
 			} else {
@@ -534,10 +672,23 @@ func run(c Case) kit.Result {
 		if len(model) > maxEntries {
 			maxEntries = len(model)
 		}
-		if r := verify(when, enumAPIs[i%3]); r != nil {
-			return *r
+		switch audit {
+		case "direct":
+			if r := verify(when, enumAPIs[i%3]); r != nil {
+				return *r
+			}
+			if r := findCheck(when, op.Name); r != nil {
+				return *r
+			}
+		case "copy":
+			if r := auditCopy(when, enumAPIs[i%3:i%3+1], op.Name); r != nil {
+				return *r
+			}
 		}
-		if r := findCheck(when, op.Name); r != nil {
+	}
+	if audit != "direct" {
+		// first what the root node says, before the object itself is read in full
+		if r := auditCopy("at the end", enumAPIs, "never-added-name"); r != nil {
 			return *r
 		}
 	}
@@ -585,8 +736,15 @@ func run(c Case) kit.Result {
 	if cfg.Kind != "basic" {
 		cls = append(cls, fmt.Sprintf("width:%d", width))
 	}
+	cls = append(cls, "audit:"+audit)
 	if collapses > 0 {
 		cls = append(cls, "shard-collapse")
+	}
+	if unobservedCollapses > 0 {
+		cls = append(cls, "shard-collapse-in-unread-reloaded-hamt")
+	}
+	if copyAudits > 0 {
+		cls = append(cls, "audited-separate-copy")
 	}
 	if reloads > 0 {
 		cls = append(cls, "reload")
@@ -622,7 +780,7 @@ func run(c Case) kit.Result {
 
 var spec = kit.Spec[Case]{
 	Prop: "C15", Name: "main",
-	Rule:  "kind {basic, pure HAMT, dynamic} x fanout {8..1024, default} x maxLinks x per-directory threshold x estimation mode x CID builder x stat; <=50 (thorough 60) ops over a per-case pool of hash-prefix-colliding (9-32 common murmur3 bits), unicode, hex-like, whitespace and long (<=300 B) names: AddChild new/replace, RemoveChild present/missing, Find, Links, ForEachLink, EnumLinksAsync, reload with MFS-style settings carry-over; map model compared after every mutation, all APIs after every reload and at the end; non-trivial = a removal from a HAMT collapsed a sub-shard (model shard count decreased) or a reload happened between edits",
+	Rule:  "kind {basic, pure HAMT, dynamic} x fanout {8..1024, default} x maxLinks x per-directory threshold x estimation mode x CID builder x stat; <=50 (thorough 60) ops over a per-case pool of hash-prefix-colliding (9-32 common murmur3 bits), unicode, hex-like, whitespace and long (<=300 B) names: AddChild new/replace, RemoveChild present/missing, Find, Links, ForEachLink, EnumLinksAsync, reload with MFS-style settings carry-over, removal bursts that empty one sub-shard down to one (or zero) entries directly after a reload; map model compared after every mutation, all APIs after every reload and at the end; audit mode {direct: read the object under test; copy: read only a separate directory loaded from the stored block of GetNode() after every edit, the object itself stays unread so its lazily loaded HAMT children stay links; sparse: only the history's own lookups/listings/reloads observe}; non-trivial = a removal from a HAMT collapsed a sub-shard (model shard count decreased) or a reload happened between edits",
 	Quick: 1500, Thorough: 8000,
 	Gen: gen, Run: run,
 	Sample: func(c Case) any {
